@@ -25,6 +25,27 @@ type Mutant struct {
 	New      string `json:"new"`
 	Replayed bool   `json:"expect_replay_confirmed"`
 	Note     string `json:"note"`
+	Nth      int    `json:"nth"` // which occurrence of old to replace (1-based); 0: must be unique
+}
+
+func replaceNth(src, old, new string, nth int) (string, bool) {
+	if nth <= 0 {
+		if strings.Count(src, old) != 1 {
+			return "", false
+		}
+		return strings.Replace(src, old, new, 1), true
+	}
+	idx := -1
+	pos := 0
+	for i := 0; i < nth; i++ {
+		j := strings.Index(src[pos:], old)
+		if j < 0 {
+			return "", false
+		}
+		idx = pos + j
+		pos = idx + len(old)
+	}
+	return src[:idx] + new + src[idx+len(old):], true
 }
 
 func runSelftest(args []string) int {
@@ -78,12 +99,13 @@ func runSelftest(args []string) int {
 				out[i] = res{m, false, err.Error()}
 				return
 			}
-			if strings.Count(string(src), m.Old) != 1 {
-				out[i] = res{m, false, fmt.Sprintf("pattern occurs %d times in %s (must be exactly 1)", strings.Count(string(src), m.Old), m.File)}
+			mutated, okr := replaceNth(string(src), m.Old, m.New, m.Nth)
+			if !okr {
+				out[i] = res{m, false, fmt.Sprintf("pattern occurs %d times in %s (nth=%d)", strings.Count(string(src), m.Old), m.File, m.Nth)}
 				return
 			}
 			mf := filepath.Join(scratch, "mutated.go")
-			os.WriteFile(mf, []byte(strings.Replace(string(src), m.Old, m.New, 1)), 0o644)
+			os.WriteFile(mf, []byte(mutated), 0o644)
 			ov := filepath.Join(scratch, "ov.json")
 			b, _ := json.Marshal(map[string]string{m.File: mf})
 			os.WriteFile(ov, b, 0o644)
